@@ -2,3 +2,7 @@ import Gamba.Model
 import Gamba.Spec.Automata
 import Gamba.Spec.Regexp
 import Gamba.Spec.TM
+import Gamba.Props.C05
+import Gamba.Props.C11
+import Gamba.Props.C14a
+import Gamba.Props.C14c
